@@ -30,3 +30,37 @@ Proof.
   apply Z.eqb_neq in Hr. unfold SetCorr.model_run in E.
   exact (objectset_pass_violation (sc_force c) (sc_world c) _ _ _ m sw e r Ef (is_activeb_spec m Ha) Hr Hv E).
 Qed.
+
+(** ** Quantifying over the status requests / member requests of the observation *)
+Lemma statuses_forall c (P : list cond * list okey * option N * bool -> bool) :
+  (forall rv cs co rm fph ok, In (SMeta (MStatus rv cs co rm fph ok)) (sc_events c) -> P (cs, co, fph, ok) = true) ->
+  forallb P (statuses c) = true.
+Proof.
+  intros H. apply forallb_forall. intros s Hs. unfold statuses in Hs. apply in_flat_map in Hs.
+  destruct Hs as (e & He & Hin). destruct e as [x|[a o|rv cs co rm fph ok]|p]; try contradiction.
+  destruct Hin as [<-|[]]. eapply H; eauto.
+Qed.
+
+Lemma members_in c x : In x (members c) <-> In (SMember x) (sc_events c).
+Proof.
+  unfold members. rewrite in_flat_map. split.
+  - intros (e & He & Hin). destruct e as [y|m|p]; try contradiction. destruct Hin as [<-|[]]. exact He.
+  - intros H. exists (SMember x). split; [exact H|now left].
+Qed.
+
+Lemma events_model c sw e r : sc_events (set_obs_s c (sw, e, r)) = e.
+Proof. reflexivity. Qed.
+
+(** ** m01 *)
+Theorem m01_sound (c : scase) : m01 (set_obs_s c (SetCorr.model_run c)) = true.
+Proof.
+  unfold m01. rewrite target_model. destruct (SetCorr.model_run c) as [[sw e] r] eqn:E.
+  destruct (find_set (sc_sets c) (sc_kind c) (sc_ns c) (sc_name c)) as [m|] eqn:Ef; [|reflexivity].
+  apply statuses_forall. intros rv cs co rm fph ok Hin. rewrite events_model in Hin.
+  destruct (find_cond cs CAvailable) as [cd|] eqn:Hcd; [|reflexivity].
+  destruct (creason_eqb (cd_reason cd) RCollisionDetected) eqn:Hre; [|reflexivity]. cbn [negb orb].
+  apply creason_eqb_spec in Hre. unfold SetCorr.model_run in E.
+  destruct (collision_reported (sc_force c) (sc_world c) _ _ _ m sw e r rv cs co rm fph ok cd Ef E Hin Hcd Hre) as [Hs|[Hs Hg]].
+  - rewrite Hs. cbn. now rewrite cond_eqb_refl'.
+  - rewrite Hs, Hg, Z.eqb_refl. cbn. apply orb_true_r.
+Qed.
